@@ -65,7 +65,12 @@ PATHO = [b"", b"table", b"table T", b"table T {", b"table T { x", b"table T { x:
          b"table T { x:[[int]]; }", b"table T { x:[int:4]; }", b"struct S { x:[int:0]; }", b"struct S { x:string; }", b"struct S { x:[S:2]; }", b"union U { A, A } table A {}",
          b"table T { u:U; } union U { T } ", b"table " + b"T" * 5000 + b" { x:int; }", b"table T { " + b"".join(b"f%d:int;" % i for i in range(3000)) + b"}",
          b"table T { x:int = " + b"9" * 400 + b"; }", b"table T { x:float = 1e" + b"9" * 300 + b"; }", b"{" * 3000, b"(" * 3000, b"[" * 3000, b"table T { x:" + b"[" * 500 + b"int" + b"]" * 500 + b"; }",
-         b"rpc_service S { M(T):T; } table T {}", b"rpc_service S { M(Missing):T; } table T {}", b"table T { x:int (deprecated, required); }", b"table T { x:string (key); y:string (key); }",
+         b"rpc_service S { M(T):T; } table T {}", b"rpc_service S { M(Missing):T; } table T {}",
+         b"table T{a:int;} rpc_service S { m(int):T; }", b"table T{a:int;} rpc_service S { m(T):int; }", b"table T{a:int;} rpc_service S { m(string):T; }",
+         b"table T{a:int;} rpc_service S { m(T):string; }", b"table T{a:int;} rpc_service S { m([T]):T; }", b"table T{a:int;} rpc_service S { m(T):[T]; }",
+         b"table T{a:int;} rpc_service S { m(T):[int]; }", b"table T{a:int;} rpc_service S { m([ubyte]):[ubyte]; }", b"struct V{a:int;} table T{a:int;} rpc_service S { m(V):T; n(T):V; }",
+         b"table T{a:int;} rpc_service S { m(T):T; m(T):T; }", b"table T{a:int;} rpc_service S { m(T):T = 1; }", b"table T{a:int;} rpc_service S { m(T):T (streaming: \"server\"); }",
+         b"enum E:int{A} table T{a:int;} rpc_service S { m(E):T; n(T):E; }", b"union U{T} table T{a:int;} rpc_service S { m(U):T; n(T):U; }", b"rpc_service S { m(bool):double; }", b"table T { x:int (deprecated, required); }", b"table T { x:string (key); y:string (key); }",
          b"enum E:byte (bit_flags) { A = 8 }", b"enum E:ulong (bit_flags) { A = 64 }", b"table T { e:E = Z; } enum E:byte { A }", b"table T { x:int = A.B.C; }"]
 
 
@@ -172,14 +177,18 @@ def cli_checks(ctx, flatcc, r, quick):
     bad = []
     d = os.path.join(ctx.work, "cli")
     import shutil
+    leak_env = {"ASAN_OPTIONS": "detect_leaks=1:abort_on_error=0:allocator_may_return_null=1", "UBSAN_OPTIONS": "print_stacktrace=1"}
     def run_case(name, files, main, expect_ok, opts=("-a",)):
         cd = os.path.join(d, name); od = os.path.join(cd, "out")
         shutil.rmtree(cd, ignore_errors=True); os.makedirs(od)
         for fn, text in files.items():
             open(os.path.join(cd, fn), "wb").write(text if isinstance(text, bytes) else text.encode())
-        rc, out, err = sh([flatcc, *opts, "-o", od, os.path.join(cd, main)], timeout=120, env=ASAN_ENV, cwd=cd)
+        # the whole process runs under LeakSanitizer: the tool destroys its context before it exits, whatever the outcome
+        rc, out, err = sh([flatcc, *opts, "-o", od, os.path.join(cd, main)], timeout=120, env=leak_env, cwd=cd)
         produced = sorted(os.listdir(od))
-        if rc < 0 or rc > 128 and rc != 255 or "AddressSanitizer" in err or "runtime error" in err:
+        if "LeakSanitizer" in err and "ERROR: AddressSanitizer" not in err:
+            bad.append(("cli " + name, "memory not released when the context was destroyed (LeakSanitizer)", err[-2500:]))
+        elif rc < 0 or rc > 128 and rc != 255 or "AddressSanitizer" in err or "runtime error" in err:
             bad.append(("cli " + name, "flatcc crashed (rc=%d)" % rc, err[-1500:]))
         elif expect_ok is True and rc != 0: bad.append(("cli " + name, "flatcc rejects a valid schema (rc=%d)" % rc, err[-800:]))
         elif expect_ok is False:
@@ -199,6 +208,17 @@ def cli_checks(ctx, flatcc, r, quick):
     run_case("cycle_inc", {"a.fbs": 'include "b.fbs"; table A { x:int; }', "b.fbs": 'include "a.fbs"; table B { x:int; }'}, "a.fbs", None)
     chain = {"f%d.fbs" % i: ('include "f%d.fbs";\n' % (i + 1) if i < 79 else "") + "table T%d { x:int; }\n" % i for i in range(80)}
     run_case("deep_inc", chain, "f0.fbs", None)
+    # beyond the include depth / include count limits (both 100 by default): must fail with a diagnostic, no output, nothing leaked
+    chain = {"f%d.fbs" % i: ('include "f%d.fbs";\n' % (i + 1) if i < 129 else "") + "table T%d { x:int; }\n" % i for i in range(130)}
+    run_case("too_deep_inc", chain, "f0.fbs", False)
+    wide = {"w%d.fbs" % i: "table W%d { x:int; }\n" % i for i in range(130)}
+    wide["a.fbs"] = "".join('include "w%d.fbs";\n' % i for i in range(130)) + "table A { x:int; }\n"
+    run_case("too_many_inc", wide, "a.fbs", False)
+    tree = {"a.fbs": 'include "l.fbs";\ninclude "r.fbs";\ntable A { x:int; }\n'}
+    for side in "lr":
+        for i in range(60):
+            tree["%s%s.fbs" % (side, "" if i == 0 else i)] = ('include "%s%d.fbs";\n' % (side, i + 1) if i < 59 else "") + "table %s%d { x:int; }\n" % (side.upper(), i)
+    run_case("count_over_two_chains", tree, "a.fbs", False)
     run_case("empty", {"a.fbs": ""}, "a.fbs", None)
     run_case("binary", {"a.fbs": bytes(r.randrange(256) for _ in range(4096))}, "a.fbs", False)
     run_case("missing_file", {}, "a.fbs", False)
